@@ -1228,20 +1228,94 @@ def search(ctx, model, why):
     common.setup_scico()
     rng = ctx.rng
     if why is not None:
-        # a generated obligation no longer checks: look for a failing input with the oracles on fixed panels (any tier) —
-        # every order on the closed forms, the default arguments of the estimators, then fresh operators
-        for case in diag_cases(rng, 2) + sid_cases(rng, 2):
-            r = oracle(case)
-            if r is not None:
-                return {"case": case, "failing": r}
-        for desc in ({"kind": "matrix-real", "A": [[1.0, 2.0], [3.0, 4.0], [0.0, 1.0]]}, {"kind": "diag-real", "d": [3.0, -1.0, 0.5]}):
-            for case in ({"what": "pdhg", "desc": desc, "ratio": 1.0, "factor": "default", "maxiter": 20, "key": 1},
-                         {"what": "pdhg", "desc": desc, "ratio": 4.0, "factor": None, "maxiter": 20, "key": 1},
-                         {"what": "padmm", "A": desc, "B": None, "factor": "default", "maxiter": 20, "key": 1},
-                         {"what": "opnorm", "desc": desc, "key": 1, "budgets": [0, 1, 2, 3, 5, 8, 20]}):
+        # a generated obligation no longer checks: find WHICH rows of the source tables differ from the model's and exercise
+        # exactly those functions with the property oracles (any tier)
+        changed = estim_translate.changed_keys()
+        ctx.extra["changed_source_rows"] = changed
+        print("search: source rows that differ from the model's tables:", changed, flush=True)
+        txt = " ".join(changed)
+        allp = not changed
+        descs = [{"kind": "matrix-real", "A": [[1.0, 2.0], [3.0, 4.0], [0.0, 1.0]]}, {"kind": "diag-real", "d": [3.0, -1.0, 0.5]},
+                 {"kind": "matrix-real", "A": [[4.0, 0.0, 0.0], [0.0, 1.0, 0.0], [0.0, 0.0, 0.5]], "flavour": "gapped"},
+                 {"kind": "matrix-complex", "Are": [[1.0, 0.5], [0.0, 2.0]], "Aim": [[0.5, -1.0], [1.0, 0.0]]},
+                 {"kind": "matrix-real", "A": [[0.0, 0.0], [0.0, 0.0]], "flavour": "zero"},
+                 {"kind": "jacobian", "W": [[1.0, -2.0], [0.5, 1.5]], "u": [0.5, -0.75], "sq": True}]
+
+        def out(case, r):
+            return {"case": case, "failing": r, "changed_rows": changed}
+
+        if allp or "Diagonal" in txt or "diag" in txt:
+            for case in diag_cases(rng, 4):
                 r = oracle(case)
                 if r is not None:
-                    return {"case": case, "failing": r}
+                    return out(case, r)
+        if allp or "ScaledIdentity" in txt or "sid" in txt:
+            for case in sid_cases(rng, 4):
+                r = oracle(case)
+                if r is not None:
+                    return out(case, r)
+        if allp or "power_iteration" in txt or "operator_norm" in txt or "powerMinBudget" in txt:
+            for desc in descs:
+                for key in (None, 1, 2):
+                    case = {"what": "opnorm", "desc": desc, "key": key, "budgets": [0, 1, 2, 3, 5, 8, 20, 60], "converged_check": desc.get("flavour") == "gapped"}
+                    r = oracle_opnorm(case)
+                    if r is not None:
+                        return out(case, r)
+                    if np.any(G.dense(desc)):
+                        for k in (1, 3, 8):
+                            case = {"what": "power-vector", "desc": desc, "key": key, "budget": k}
+                            r = oracle_power_vector(case)
+                            if r is not None:
+                                return out(case, r)
+            for Am in NONFINITE:
+                case = {"what": "nonfinite", "A": Am, "key": 1, "budgets": [1, 2, 3, 5]}
+                r = oracle_nonfinite(case)
+                if r is not None:
+                    return out(case, r)
+            for Bm in ([[0.0, 1.0], [0.0, 0.0]], [[1.0, 2.0], [-3.0, 0.5]], [[0.0, -2.0], [1.0, 0.0]]):
+                case = {"what": "nonsym", "B": Bm, "key": 1, "budgets": [1, 2, 3, 5, 10]}
+                r = oracle_nonsym(case)
+                if r is not None:
+                    return out(case, r)
+        if allp or "PDHG" in txt or "pdhgFactorNone" in txt or "power_iteration" in txt or "operator_norm" in txt:
+            for desc in descs:
+                for ratio, factor in ((1.0, "default"), (4.0, None), (0.5, 2.0), (2.0, 1.0)):
+                    for dflt in ([False, True] if desc["kind"] == "jacobian" else [False]):
+                        d2 = {**desc, "u": [0.0] * len(desc["u"])} if dflt else desc
+                        case = {"what": "pdhg", "desc": d2, "default_point": dflt, "ratio": ratio, "factor": factor, "maxiter": 20, "key": 1}
+                        r = oracle_pdhg(case)
+                        if r is not None:
+                            return out(case, r)
+        if allp or "ProximalADMM" in txt or "power_iteration" in txt or "operator_norm" in txt:
+            for desc in descs[:4]:
+                for B in (None, {"kind": "matrix-real", "A": (2.0 * np.eye(G.dense(desc).shape[0], 2)).tolist()}):
+                    if B is not None and np.iscomplexobj(G.dense(desc)):
+                        continue
+                    for factor in ("default", None, 2.0):
+                        case = {"what": "padmm", "A": desc, "B": B, "factor": factor, "maxiter": 20, "key": 1}
+                        r = oracle_padmm(case)
+                        if r is not None:
+                            return out(case, r)
+        if allp or "NonLinearPADMM" in txt or "power_iteration" in txt or "operator_norm" in txt:
+            for give in ([True, True], [True, False], [False, True], [False, False]):
+                for factor in ("default", None):
+                    case = {"what": "nlpadmm", "A": [[1.0, -2.0], [0.5, 1.5]], "B": [[2.0, 0.25], [-1.0, 1.0]],
+                            "x": [0.75, -1.25] if give[0] else [0.0, 0.0], "z": [1.5, -0.5] if give[1] else [0.0, 0.0],
+                            "factor": factor, "maxiter": 20, "key": 1, "give": give, "coupled": True}
+                    r = oracle_nlpadmm(case)
+                    if r is not None:
+                        return out(case, r)
+        if allp or "MatrixOperator" in txt:
+            import scico.numpy as snp
+            from scico.linop import MatrixOperator
+
+            for M in (np.array([[1.0, 2.0], [3.0, -4.0], [0.0, 1.0]]), np.array([[3.0, 4.0]]), np.diag([1.0, -3.0, 2.0])):
+                for o in ORDS_VALID:
+                    got = _impl(lambda: MatrixOperator(snp.array(M)).norm(o))
+                    want = float(np.linalg.norm(M, o))
+                    if got[0] != "ok" or not _rel(_scalar(got[1]), want, 16, 1e-9):
+                        return out({"what": "matnorm", "M": M.tolist(), "ord": ord_wire(o)},
+                                   {"why": "MatrixOperator.norm differs from numpy's matrix norm", "got": str(got), "numpy": want})
     for _ in range(ctx.n(0, 120) if why is None else 40):
         desc = G.gen_operator(rng)
         case = {"what": "opnorm", "desc": desc, "key": int(rng.integers(0, 50)), "budgets": [0, 1, 2, 3, 5, 8, 13, 21, 34]}
